@@ -10,6 +10,14 @@ def observe(s):
     import glyles.glycans.poly.merger as merger
     from glyles import Glycan
     raws = []
+    shifteds = []
+    orig_ts = mono.Monomer.to_smiles
+
+    def ts(self_, *a, **k):
+        r = orig_ts(self_, *a, **k)
+        if state["depth"] > 0:
+            shifteds.append(r)
+        return r
     orig_m2s = mono.MolToSmiles
     orig_mi = merger.Merger.merge_int
     calls = []
@@ -25,7 +33,7 @@ def observe(s):
         state["depth"] += 1
         idx = len(calls)
         calls.append({"node": node, "ring_index": ring_index, "kids": [x[1] for x in t.edges(node)],
-                      "nrings": len(t.nodes[node]["type"].get_ring_info()), "raw_index": len(raws)})
+                      "nrings": len(t.nodes[node]["type"].get_ring_info()), "raw_index": len(raws), "shift_index": len(shifteds)})
         try:
             r = orig_mi(self, t, node, start, ring_index)
         finally:
@@ -33,6 +41,7 @@ def observe(s):
         calls[idx]["out"] = r[0]
         return r
     mono.MolToSmiles = m2s
+    mono.Monomer.to_smiles = ts
     merger.Merger.merge_int = mi
     try:
         import io
@@ -46,6 +55,7 @@ def observe(s):
         ok = False
     finally:
         mono.MolToSmiles = orig_m2s
+        mono.Monomer.to_smiles = orig_ts
         merger.Merger.merge_int = orig_mi
     if not calls or "out" not in calls[0]:
         return None
@@ -54,11 +64,15 @@ def observe(s):
         if c["raw_index"] >= len(raws):
             return None
         c["raw"] = raws[c["raw_index"]]
+        c["shifted"] = shifteds[c["shift_index"]] if c["shift_index"] < len(shifteds) else None
 
     def build(n):
         c = by_node[n]
         return {"raw": c["raw"], "nrings": c["nrings"], "ring_index": c["ring_index"], "kids": [build(k) for k in c["kids"] if k in by_node]}
-    return {"tree": build(0), "out": calls[0]["out"], "n": len(calls)}
+    def build_obs(n):
+        c = by_node[n]
+        return {"shifted": c["shifted"] or "", "kids": [build_obs(k) for k in c["kids"] if k in by_node]}
+    return {"tree": build(0), "observed": build_obs(0), "out": calls[0]["out"], "n": len(calls)}
 
 
 def run(rep, tier, driver, iupacs):
@@ -73,7 +87,23 @@ def run(rep, tier, driver, iupacs):
         reqs.append({"op": "merge", "tree": o["tree"]})
         keep.append((s, o))
     answers = driver.ask_many(reqs)
-    n_ok, n_lbl_bad, n_text, n_cert, n_uncert = 0, 0, 0, 0, 0
+    obs_answers = driver.ask_many([{"op": "observed", "tree": o["observed"], "out": o["out"]} for _, o in keep])
+    n_obs = 0
+    obs_uncert = []
+    for (s, o), a in zip(keep, obs_answers):
+        if a.get("observed_certified"):
+            n_obs += 1
+        else:
+            obs_uncert.append(s)
+    for s in obs_uncert[:25]:
+        # the theorem's decidable hypothesis fails on the strings the code itself produced for a glycan the generator built
+        # as well-formed (a label of a child is open at its splice point, a marker is missing / doubled / not a leaf, a child has
+        # no marker), or the code's output does not denote the token-level assembly of those strings
+        rep.violation("input", {"iupac": s, "what": "whole-tree certificate on the strings observed inside merge_int (wfTree and sem(output) = sem(mergeTok))"},
+                      {"observed_certified": False},
+                      "C01_tree_refines_spec applies to the observed residue strings and the returned string denotes specTree", key="uncertified:" + s)
+    n_ok, n_lbl_bad, n_text, n_cert, n_uncert, n_tree = 0, 0, 0, 0, 0, 0
+    tree_uncert = []
     uncert = []
     for (s, o), a in zip(keep, answers):
         rep.count("merge-observed")
@@ -86,6 +116,10 @@ def run(rep, tier, driver, iupacs):
                 rep.broken.append("merge model text differs on %r: model %r vs code %r" % (s, a["smiles"], o["out"]))
         else:
             n_ok += 1
+        if a.get("tree_certified"):
+            n_tree += 1
+        elif len(tree_uncert) < 5:
+            tree_uncert.append(s)
         if a.get("certified"):
             n_cert += 1
         elif a.get("labels_ok"):
@@ -100,4 +134,8 @@ def run(rep, tier, driver, iupacs):
             rep.violation("input", {"iupac": s, "what": "LabelsOK on the real boundary strings", "tree": o["tree"]}, {"labels_ok": False, "assembled": o["out"]},
                           "no ring-closure label of a child is open in its parent at the splice point (and every label < 100)", key="labels:" + s)
     rep.extra["merge_model"] = {"merges_compared": len(keep), "identical_text": n_ok, "labels_ok_violations": n_lbl_bad, "merges_certified_as_graft_instances": n_cert,
+                               "whole_trees_certified (wfTree + sem(model output) = sem(mergeTok): instance of C01_tree_refines_spec)": n_tree,
+                               "tree_uncertified_samples": tree_uncert,
+                               "observed_trees_certified (strings returned by Monomer.to_smiles inside the real merge_int, code's own output)": n_obs,
+                               "observed_uncertified": obs_uncert[:10],
                                "merges_outside_the_theorem (marker not a leaf)": n_uncert, "outside_samples": uncert}
